@@ -1,15 +1,13 @@
 SPECIFICATION MCSpec
 CONSTANTS
   Parts = {0, 1}
-  SubIds = {"s1"}
+  SubIds = {"s1", "s2"}
   NilFix = TRUE
-  MaxOps = 5
-  MaxMsgs = 2
+  MaxOps = 9
+  MaxMsgs = 5
   Paths <- AllPaths
   Gates <- AllGates
   Cfgs <- AllCfgs
   SubsetsOf <- PartSets
-INVARIANTS TypeOK X02_AckedStored X02_PausedQuiet X02_ActiveServedT X02_DeletedGone X02_SubsSeeLog X02_NoCrash
-PROPERTIES StepsOK
 VIEW MCView
 CHECK_DEADLOCK FALSE
